@@ -22,6 +22,11 @@ ASSUMPTIONS = ["a node is re-parsed with the Parser method that produced it (pub
                "constant-ness is not part of a node, the re-parse uses const=False (a superset)"]
 TRUSTED = []
 
+def extract(ctx):
+    """the model this part depends on uses the tables of parser.py: regenerate them on C02 runs too"""
+    return cp.extract(ctx)
+
+
 # node class -> how to re-parse its span
 METHOD = {
     "Name": "parse_name", "Variable": "parse_variable", "VariableDefinition": "parse_variable_definition",
